@@ -25,7 +25,7 @@ Consume ==
          [] e.k = "end"   -> /\ e.outcome = "completed"
                              /\ e.panics = <<>>
                              /\ Quiescent(e.len)
-         [] e.k \in {"atom", "aux"} -> UNCHANGED qvars
+         [] e.k \in {"atom", "aux", "tok"} -> UNCHANGED qvars
          [] OTHER -> FALSE
 
 Silent ==
